@@ -8,6 +8,8 @@ def run(ctx):
     # mid-cycle faults with doers on both sides of the marker, remove of subsets, extend then fault
     p["exh"] = list(p["exh"]) + [
         ("flat4-midcycle", sched.mk(["a", "b", "c", "d"], Tocks=[0, 3], MaxSteps=2, Limit=2, Faults=["x", "k"], MaxFaults=1)),
+        # the same inside a DoDoer: a child raises in the middle of the DoDoer's cycle with children on both sides of the marker
+        ("dd4-midcycle", sched.mk([["G", "a", "b", "c", "e"], "d"], Tocks=[0, 3], MaxSteps=2, Limit=2, Faults=["x", "k"], MaxFaults=1)),
         ("nest-remove", sched.mk(sched.NEST, Tocks=[0], MaxSteps=3, Limit=3, MaxOps=1,
                                  rem={"R": [["a", "d"], ["G"], ["d", "G", "a"]], "G": [["b", "c"], ["c"]]})),
     ]
